@@ -43,6 +43,11 @@ func c11SchedScenarios() []c11Sched {
 		{name: "two-block-update+delete||insert", full: true, threads: [][]model.Act{
 			{{Op: "put", Off: 0, W: []model.Write{{Col: "v", V: model.Val{N: 50}}}}, {Op: "del", Off: 16385}},
 			{ins(12, false)}}},
+		// the insert's callback reads its new row before storing anything: the previous
+		// occupant's values must be gone by the time the offset is handed out
+		{name: "delete-row0||insert-reading-its-new-row", threads: [][]model.Act{
+			{{Op: "del", Off: 0}},
+			{{Op: "insert", Probe: true, W: []model.Write{{Col: "s", V: model.Val{S: "new"}}}}}}},
 		{name: "insert-merge||delete+insert", threads: [][]model.Act{
 			{{Op: "insert", W: []model.Write{{Col: "v", V: model.Val{N: 5}, Merge: true}}}},
 			{{Op: "del", Off: 0}, ins(12, false)}}},
